@@ -204,11 +204,11 @@ func TestVerifC13Sched(t *testing.T) {
 		"controlled scheduler: 2-3 simultaneous requests with different paths/queries/hosts served by the real HTTPProxy.ServeHTTP over one shared redirect route (route package rewritten: scheduling points at sync ops and every statement of the lookup path); every interleaving up to the preemption bound; oracle: each response carries the Location computed for that request alone")
 	type rq struct{ path, query, host string }
 	reqs := []rq{{"/a", "", "foo.com"}, {"/b/c", "q=1", "bar.org:8080"}, {"/d%2Fe", "", "foo.com"}}
-	table := "route add svc / https://$host/x$path opts \"redirect=302\"\n"
-	body := func(n int) func(x *vsched.X) {
+	body := func(n int, tmpl string) func(x *vsched.X) {
+		table := "route add svc / " + tmpl + " opts \"redirect=302\"\n"
 		want := make([]string, n)
 		for i := 0; i < n; i++ {
-			want[i], _ = c13Expand("https://$host/x$path", reqs[i].path, reqs[i].query, reqs[i].host, "", "")
+			want[i], _ = c13Expand(tmpl, reqs[i].path, reqs[i].query, reqs[i].host, "", "")
 		}
 		return func(x *vsched.X) {
 			r := &rig{gc: route.NewGlobCache(10), matcher: "prefix"}
@@ -242,19 +242,22 @@ func TestVerifC13Sched(t *testing.T) {
 	}
 	si, sn := ev.Shard()
 	deadline := ev.Deadline(120, 1800)
-	for _, sc := range []struct {
-		name        string
+	scs := []struct {
+		name       string
+		tmpl       string
 		n, b, deep int
-	}{{"serve-2req", 2, 2, 3}, {"serve-3req", 3, 1, 2}} {
+	}{{"serve-2req", "https://$host/x$path", 2, 2, 3}, {"serve-3req", "https://$host/x$path", 3, 1, 2},
+		{"serve-2req-host-suffix-template", "https://t.example$path", 2, 2, 3}, {"serve-2req-slash-template", "https://t.example/$path", 2, 1, 2}, {"serve-2req-own-query", "https://t.example/x/$path?own=1", 2, 1, 2}}
+	for _, sc := range scs {
 		bound := sc.b
 		if ev.Thorough() {
 			bound = sc.deep
 		}
 		name := sc.name
-		st := vsched.Explore(vsched.Options{Name: name, Bound: bound, Shard: si, Shards: sn, Deadline: time.Now().Add(time.Until(deadline) / 2),
+		st := vsched.Explore(vsched.Options{Name: name, Bound: bound, Shard: si, Shards: sn, Deadline: time.Now().Add(time.Until(deadline) / time.Duration(len(scs))),
 			OnFail: func(sig string, detail interface{}, choices []int, trace []int) {
 				L.Violation(name+"/"+sig, map[string]interface{}{"scenario": name, "schedule": choices, "detail": detail})
-			}}, body(sc.n))
+			}}, body(sc.n, sc.tmpl))
 		L.AddCases(st.Executions)
 		L.AddStates(st.Points + st.Executions)
 		L.AddTransitions(st.Points + st.Executions)
